@@ -735,6 +735,9 @@ func unpackCorpus(arena string) []*UCase {
 	mk := func(es ...UEntry) *UCase {
 		return &UCase{Dst: "p/q/dst", Fault: "none", Entries: es, Init: baseInit()}
 	}
+	mkDst := func(dst string, es ...UEntry) *UCase {
+		return &UCase{Dst: dst, Fault: "none", Entries: es, Init: baseInit()}
+	}
 	L := func(n, t string) UEntry { return UEntry{Name: n, Typ: tar.TypeSymlink, Link: t, Mode: 0777, Mtime: 1400000000} }
 	F := func(n, b string) UEntry { return UEntry{Name: n, Typ: tar.TypeReg, Body: b, Mode: 0644, Mtime: 1400000001} }
 	Fm := func(n, b string, m int64) UEntry { return UEntry{Name: n, Typ: tar.TypeReg, Body: b, Mode: m, Mtime: 1400000001} }
@@ -763,6 +766,12 @@ func unpackCorpus(arena string) []*UCase {
 		mk(L("l", "../dst-evil/x"), F("l", "pwn")),
 		mk(L("l", "../dst-evil/new.txt"), F("l", "created")),
 		mk(L("l", "../dst-evil"), D("l/", 0700)),
+		// odd destinations: missing, a regular file, a link to a directory, spelled with a trailing slash / dot segments
+		mkDst("p/q/missing", F("a", "1"), D("d/", 0755)),
+		mkDst("p/q/outside.txt", F("a", "1")),
+		mkDst("p/q/dst/", F("a", "1"), L("l", "a")),
+		mkDst("p/q/./dst", F("a", "1"), L("l", "../dst-evil/x")),
+		mkDst("p/q/dstx/../dst", F("a", "1"), L("d/l", "../a")),
 		// a name with two leading slashes and a target that climbs above the link's depth and then
 		// spells out dst's own absolute path (seed C04-b: the link judged at "/a/link", not at dst/a/link)
 		mk(D("a/", 0755), L("//a/link", "../.."+arena+"/p/q/dst/inner")),
@@ -855,7 +864,10 @@ func runUnpackCase(cfg *Config, rep *Report, idx int, c *UCase, arena string, re
 		rep.mu.Unlock()
 		return
 	}
-	dst := filepath.Join(arena, c.Dst)
+	// the destination is handed to Unpack (and to the model) as spelled; the oracles work with its
+	// cleaned form
+	dst := arena + "/" + c.Dst
+	dstRel := filepath.Clean(c.Dst)
 	data := buildTarGz(c.Entries)
 	decoded, derr := decodeTar(data)
 	if derr != nil {
@@ -905,7 +917,8 @@ func runUnpackCase(cfg *Config, rep *Report, idx int, c *UCase, arena string, re
 	for _, n := range after {
 		am[n.Path] = n
 	}
-	inDst := func(p string) bool { return p == c.Dst || strings.HasPrefix(p, c.Dst+"/") }
+	inDst := func(p string) bool { return p == dstRel || strings.HasPrefix(p, dstRel+"/") }
+	_, dstExisted := bm[dstRel]
 	var outside []string
 	for p, b := range bm {
 		if inDst(p) {
@@ -925,6 +938,16 @@ func runUnpackCase(cfg *Config, rep *Report, idx int, c *UCase, arena string, re
 		if _, ok := bm[p]; !ok {
 			outside = append(outside, "created:"+p)
 		}
+	}
+	if !dstExisted {
+		// creating a missing destination necessarily touches its parent directory's times
+		var kept []string
+		for _, o := range outside {
+			if o != "changed:"+filepath.Dir(dstRel) {
+				kept = append(kept, o)
+			}
+		}
+		outside = kept
 	}
 	// with an allow-list the caller has opted into links leading to the listed places; what an archive
 	// does through such a link is outside C01's claim (the allow-listed places themselves may change)
@@ -984,7 +1007,7 @@ func runUnpackCase(cfg *Config, rep *Report, idx int, c *UCase, arena string, re
 		if !ok {
 			continue // a loop leads nowhere
 		}
-		if !within(dst, res) && !allowedAbs(res) {
+		if !within(filepath.Clean(dst), res) && !allowedAbs(res) {
 			sig := unpackSignature(c, "link")
 			rep.AddOracle(OracleFailure{Property: "C04", Lane: "unpack", What: fmt.Sprintf("link %s -> %q resolves to %s, outside dst (result %s)", n.Path, n.Data, strings.TrimPrefix(res, arena), out.class),
 				Input: c, Signature: sig, ReqIdx: idx + 1})
@@ -995,7 +1018,8 @@ func runUnpackCase(cfg *Config, rep *Report, idx int, c *UCase, arena string, re
 	}
 
 	// ---- C15: well-formed archives are materialised as the reference interpreter says ----
-	if len(c.Allow) == 0 && onlyStandardInit(c.Init) && wellFormedForC15(decoded) {
+	dstIsDirOrMissing := !dstExisted || bm[dstRel].Kind == "d"
+	if len(c.Allow) == 0 && onlyStandardInit(c.Init) && wellFormedForC15(decoded) && dstIsDirOrMissing {
 		tree, ok, wantErr := refUntar(decoded)
 		if ok {
 			rep.Count("c15:judged")
@@ -1009,8 +1033,8 @@ func runUnpackCase(cfg *Config, rep *Report, idx int, c *UCase, arena string, re
 				var diffs []string
 				got := map[string]FSNode{}
 				for _, n := range after {
-					if strings.HasPrefix(n.Path, c.Dst+"/") {
-						got[strings.TrimPrefix(n.Path, c.Dst+"/")] = n
+					if strings.HasPrefix(n.Path, dstRel+"/") {
+						got[strings.TrimPrefix(n.Path, dstRel+"/")] = n
 					}
 				}
 				for p, w := range tree {
